@@ -190,7 +190,40 @@ def enumerate_leaves(body, tr):
     return leaves
 
 
+
+def total(ctx, chk):
+    """A reply parser maps every input to a variant or an error: no panic site in any zvt_parse body (the C02-a/b site
+    discharge restricted to the parsers) - `bytes[3]` in a fallback arm would turn one control field into a crash."""
+    import rules_c02
+    from report import Sub
+    sub = Sub(chk, "C15/total", lambda r: r in ("C15p-a/no-panic", "C15p-b/no-wrap", "C15p-b/no-truncation"))
+    # the parsers and what they call besides the payload decoders (helpers that build the error for the fallback arm ...)
+    from mirlite import callee_res
+    crates = [ctx.crate("zvt_builder"), ctx.crate("zvt")]
+    by_id = {}
+    for c in crates:
+        by_id.update(c.bodies)
+    roots = [b for b in by_id.values() if b.raw.get("name") == "zvt_parse" and b.raw.get("impl_trait") == PARSER]
+    reach, work = set(), list(roots)
+    while work:
+        b = work.pop()
+        if b.id in reach:
+            continue
+        reach.add(b.id)
+        for _, t_ in b.calls():
+            n = callee_res(t_)
+            cb = by_id.get(n)
+            # payload decoding is C02's own subject (and the parsers' leaf-action rule says which decoder is called)
+            if cb is not None and cb.raw.get("name") not in ("zvt_deserialize", "deserialize_tagged", "decode", "deserialize"):
+                work.append(cb)
+        for cb in by_id.values():
+            if cb.raw.get("parent") == b.id:
+                work.append(cb)
+    rules_c02.run(ctx, sub, only=lambda b: b.id in reach, prop="C15p")
+    chk.analysed["parser_sites_discharged"] = sub.count
+
 def run(ctx, chk):
+    total(ctx, chk)
     zvt = ctx.crate("zvt")
     spec = ctx.spec("replies.json")
     cmds = {}
